@@ -68,17 +68,26 @@ def alone_references(cfgs, timeout=300):
     procs = []
     code = _CHILD % {"compat": os.path.join(VERIF, "tools", "compat"), "harness": os.path.join(VERIF, "tools", "harness")}
     env = dict(os.environ, PYTHONDONTWRITEBYTECODE="1")
-    for i, c in enumerate(cfgs):
-        f = os.path.join(tmp, f"c{i}.json")
-        json.dump(c, open(f, "w"))
-        procs.append(subprocess.Popen(["/venv/bin/python", "-B", "-c", code, f], stdout=subprocess.PIPE, stderr=subprocess.PIPE, text=True, env=env))
     outs = []
-    for p in procs:
-        so, se = p.communicate(timeout=timeout)
-        try:
-            outs.append(json.loads(so.strip().splitlines()[-1]))
-        except Exception:
-            outs.append({"error": (se or so)[-300:]})
+    BATCH = 8           # at most eight interpreters at a time
+    for b0 in range(0, len(cfgs), BATCH):
+        procs = []
+        for i, c in list(enumerate(cfgs))[b0:b0 + BATCH]:
+            f = os.path.join(tmp, f"c{i}.json")
+            json.dump(c, open(f, "w"))
+            procs.append(subprocess.Popen(["/venv/bin/python", "-B", "-c", code, f], stdout=subprocess.PIPE, stderr=subprocess.PIPE, text=True, env=env))
+        for p in procs:
+            try:
+                so, se = p.communicate(timeout=timeout)
+            except subprocess.TimeoutExpired:
+                p.kill()
+                so, se = p.communicate()
+                outs.append({"error": "timeout"})
+                continue
+            try:
+                outs.append(json.loads(so.strip().splitlines()[-1]))
+            except Exception:
+                outs.append({"error": (se or so)[-300:]})
     import shutil
     shutil.rmtree(tmp, ignore_errors=True)
     return outs
